@@ -465,7 +465,7 @@ fn main() {
     }
     let thorough = r.tier().is_thorough();
     let max_p = r.args.extra_value("--max-p").and_then(|s| s.parse().ok()).unwrap_or(r.tier().pick(4usize, 5usize));
-    let full_p = r.args.extra_value("--full-p").and_then(|s| s.parse().ok()).unwrap_or(r.tier().pick(3usize, 4usize));
+    let full_p = r.args.extra_value("--full-p").and_then(|s| s.parse().ok()).unwrap_or(r.tier().pick(2usize, 4usize));
     let ext_p = r.args.extra_value("--ext-p").and_then(|s| s.parse().ok()).unwrap_or(r.tier().pick(2usize, 3usize));
     let cls: Vec<Cl> = if thorough { Cl::ALL.to_vec() } else { vec![Cl::Quorum, Cl::EachQuorum, Cl::One, Cl::LocalSerial] };
     let mut items = Vec::new();
